@@ -1,30 +1,27 @@
-"""C19 - host actuator models keep their invariants under every operation history.
-
-TEMPORARY property module of work package wp/c19motor: runs only unit C19_motor
-(Servo + DCMotor).  The final module lists UNITS = ["C19_led", "C19_motor"]."""
+"""C19 - host actuator invariants under every history (TEMPORARY single-unit driver of the
+C19_led work package; the integrator replaces it by the driver that runs all units)."""
 from __future__ import annotations
 
 from harness import common as C
-from harness.props import c19_motor
+from harness.props import c19_led
 
-UNITS = ["C19_motor"]
+UNITS = ["C19_led"]
 
 META = {
     "id": "C19",
-    "technique": "Coq proof (invariants by induction over all operation histories of Gallina models of the host classes) + extracted-model correspondence with the real classes + property oracle on the real objects",
-    "level_text": c19_motor.META_PART,
-    "level_note": "Trusted: Coq kernel, translator plug-in harness/gen/c19_motor.py, extraction (ExtrOcamlBasic), OCaml driver, the implementation runner that wraps the real classes. The theorems are about the models (floats = exact rationals); the correspondence check bounds their distance from the Python classes to 1e-9.",
+    "technique": "Coq proof (induction over operation sequences of hand-written Gallina models of the host actuator classes) + extracted-model correspondence with the real classes + property oracle on the real objects",
+    "level_text": c19_led.META_PART,
+    "level_note": "Trusted: Coq kernel, extraction (ExtrOcamlBasic), OCaml driver, the implementation runners and value comparison. The theorems are about the models; the correspondence check bounds their distance from the Python classes.",
     "design_ref": "DESIGN.md section 4 C19, Appendix A.1-A.4, A.7",
 }
 
 
 def run(ctx: C.Ctx):
-    part = c19_motor.run_unit(ctx)
-    ctx.coverage.update({k: part[k] for k in ("evaluations", "distinct_nontrivial", "rule", "samples", "distribution", "guard", "unmodelled")})
-    ctx.coverage["units"] = {part["unit"]: {"evaluations": part["evaluations"], "distinct_nontrivial": part["distinct_nontrivial"]}}
+    part = c19_led.run_unit(ctx)
+    ctx.coverage.update({k: v for k, v in part.items() if k not in ("trusted_base", "assumptions")})
     ctx.coverage["trusted_base"] = C.COMMON_TRUSTED + part["trusted_base"]
     ctx.assumptions += part["assumptions"]
 
 
 def replay(data):
-    return c19_motor.replay(data)
+    return c19_led.replay_unit(data)
